@@ -134,9 +134,22 @@ def convLib : String → Option (Option Conv)
   | "nil" => some none
   | _ => none
 
+/-- `ign@<k>=A,B` / `conv@<k>=A:neg` name an option VALUE that the case holds and passes to several
+    constructors / calls (harness: `optPool`). An option value is an immutable description of "ignore these
+    fields" / "convert this field": where, how often and next to which other options it has been used
+    before does not change what it means, so the word reads exactly like `ign=A,B` / `conv=A:neg`. -/
+def plainOptWord (w : String) : String :=
+  let cs := w.toList
+  let (head, r) := cs.span (fun c => c ≠ '@' && c ≠ '=')
+  match r with
+  | '@' :: r' =>
+    let h := String.ofList head
+    if h == "ign" || h == "conv" then h ++ String.ofList (r'.dropWhile (· ≠ '=')) else w
+  | _ => w
+
 /-- the `ign=` / `conv=` words of an op, in order -/
-def parseOptItems (ws : List String) : Option (List OptItem) :=
-  ws.foldlM (init := []) fun acc w =>
+def parseOptItems (ws0 : List String) : Option (List OptItem) :=
+  (ws0.map plainOptWord).foldlM (init := []) fun acc w =>
     if w.startsWith "ign=" then
       let body := (w.drop 4).toString
       some (acc ++ [.ignoreFields (if body == "-" then [] else body.splitOn ",")])
@@ -168,6 +181,30 @@ structure St where
 
 def derefOr (v : Val) : Val := match v with | .ptr x => x | x => x
 
+/-- the judgement of one constructor call (`new`, `sib`, `rebuild`): the state a case goes on with if it
+    keeps this copier, and the complaint if any -/
+def judgeBuild (model : Bool) (S D : Ty) (items : List OptItem) (got : String) (obs : String) : St × Option String :=
+  if model then
+    match newReflectCopier defaultAtomics S D items with
+    | .ok c =>
+      let st' := { S, D, defaults := items, copier := some c, built := got == "ok" : St }
+      if got ≠ "ok" then (st', some s!"constructor: want ok got {got}")
+      else if field obs "trie" ≠ some (renderTrie c.root.fields) then
+        (st', some s!"trie: want {renderTrie c.root.fields}")
+      else (st', none)
+    | .err e =>
+      let st' := { S, D, defaults := items, copier := none, built := got == "ok" : St }
+      if got ≠ e.render then (st', some s!"constructor: want {e.render} got {got}") else (st', none)
+    | .panic m =>
+      let st' := { S, D, defaults := items, copier := none, built := got == "ok" : St }
+      if got ≠ "panic" then (st', some s!"constructor: model panics ({m}) got {got}") else (st', none)
+  else
+    let st' := { S, D, defaults := items, copier := none, built := got == "ok" : St }
+    if got == "panic" then (st', some s!"constructor panicked: {resultTok obs}")
+    else if S.kind == .struct && D.kind == .struct && Spec.identicalB defaultAtomics (S.depth + 1) S D && got ≠ "ok" then
+      (st', some s!"constructor must succeed when corresponding field types are identical, got {got}")
+    else (st', none)
+
 /-- `model := true`: the executable model the C20 theorems are about (result, error kind and field,
     trie, destination after — also after a failed call —, pure CopyTo);
     `model := false`: the property's statement only (`Spec.copyRel`, no panic, source unchanged,
@@ -195,32 +232,25 @@ def checker (model : Bool) : Checker where
       if obs == "blackbox" then (none, if model then some "black-box run" else none) else
       match (field obs "src").bind parseTyStr, (field obs "dst").bind parseTyStr, parseOptItems optWords with
       | some S, some D, some items =>
-        if model then
-          match newReflectCopier defaultAtomics S D items with
-          | .ok c =>
-            let st' := some { S, D, defaults := items, copier := some c, built := got == "ok" : St }
-            if got ≠ "ok" then (st', some s!"constructor: want ok got {got}")
-            else if field obs "trie" ≠ some (renderTrie c.root.fields) then
-              (st', some s!"trie: want {renderTrie c.root.fields}")
-            else (st', none)
-          | .err e =>
-            let st' := some { S, D, defaults := items, copier := none, built := got == "ok" : St }
-            if got ≠ e.render then (st', some s!"constructor: want {e.render} got {got}") else (st', none)
-          | .panic m =>
-            let st' := some { S, D, defaults := items, copier := none, built := got == "ok" : St }
-            if got ≠ "panic" then (st', some s!"constructor: model panics ({m}) got {got}") else (st', none)
-        else
-          let st' := some { S, D, defaults := items, copier := none, built := got == "ok" : St }
-          if got == "panic" then (st', some s!"constructor panicked: {resultTok obs}")
-          else if S.kind == .struct && D.kind == .struct && Spec.identicalB defaultAtomics (S.depth + 1) S D && got ≠ "ok" then
-            (st', some s!"constructor must succeed when corresponding field types are identical, got {got}")
-          else (st', none)
+        let (st', msg) := judgeBuild model S D items got obs
+        (some st', msg)
       | _, _, _ => (none, some s!"bad-op-or-observation {op}")
     | opk :: _ =>
       match st with
       | none => (none, if obs == "no-copier" || obs == "no-case" then none else some "no-case")
       | some s =>
-        if got == "no-copier" then
+        if opk == "sib" || opk == "rebuild" then
+          -- another constructor call for the same pair of types (the harness prints the types again: they
+          -- must be the case's). Its options may be option values the case has used before: that changes
+          -- nothing. `sib`: the copier is dropped; `rebuild`: the case goes on with it.
+          match (field obs "src").bind parseTyStr, (field obs "dst").bind parseTyStr, parseOptItems (ws.drop 1) with
+          | some S, some D, some items =>
+            if S != s.S || D != s.D then (st, some "bad-observation: a sibling copier has the case's types")
+            else
+              let (st', msg) := judgeBuild model S D items got obs
+              (if opk == "rebuild" then some st' else st, msg)
+          | _, _, _ => (st, some s!"bad-op-or-observation {op}")
+        else if got == "no-copier" then
           if model && s.copier.isSome then (st, some "the model built a copier")
           else if s.built then (st, some "no-copier after a successful constructor")
           else
